@@ -143,6 +143,8 @@ func rerun(c Case) []obs {
 		return rerunRelabel(c)
 	case "txroot":
 		return rerunTxRoot(c)
+	case "ragged":
+		return rerunRagged(c)
 	}
 	return []obs{{"C13|machinery|unknown-phase=" + c.Phase, ""}}
 }
@@ -276,6 +278,7 @@ func main() {
 	})
 	phase("partsets", runPartSets)
 	phase("relabel", runRelabel)
+	phase("ragged", runRagged)
 	phase("headerhash", runHeaderHash)
 	phase("txroot_reference", runTxRootReference)
 	phase("mutations", runMutations)
